@@ -24,10 +24,12 @@ import (
 const rule = "(A) breadth-first search over histories of qrow/take/qidx/get reads, Exec writes+deletes with the row's cache keys, SetCache, SetCacheWithExpire(2.5s), " +
 	"clock advances {TTL/2, TTL, not-found TTL, TTL+6s}, next-DB-query-fails, cache outage begin/end (<=4 cache ops inside), jitter answer {x1.00,x1.05,x0.95} " +
 	"over rows {k1,k2} x {absent,v1,v2} and cache keys {p:1,p:2,i:a}; histories-pk: the same reads/writes/advances with the rows' primary keys being int >= 1e6, int > 2^53 or strings (first op picks the shape); " +
-	"a state is distinct by reference state + complete miniredis content with TTLs and " +
+	"histories-conf: first op = expiry configuration handed to the constructors, WithExpiry x WithNotFoundExpiry each in {option absent, 0, -1s, positive} (effective expiry = the value if positive, else the documented default 7 d / 1 min) x system {NewNode+NewNodeConn | cache.New+sqlc.NewConn over two nodes, index key on the other / on the same node | node behind a redis.ClusterType client}, then reads incl. TakeWithExpire and Cache.Get, sets through SetCache / Cache.Set / SetCacheWithExpire / Cache.SetWithExpire, Exec writes, DelCache / Cache.Del, advances {E/2,E,N,E+6s} of the effective expiries; " +
+	"histories-monc: the same configurations x {monc.NewNodeModel | monc.NewModel over two nodes} over a harness collection, FindOne/GetCache reads, every write entry point with a cache key (InsertOne ReplaceOne UpdateOne UpdateByID UpdateMany FindOneAndReplace FindOneAndUpdate DeleteOne FindOneAndDelete), DelCache, SetCache; " +
+	"a state is distinct by reference state (incl. configuration) + complete miniredis content with TTLs and " +
 	"non-trivial when a cache entry, taint or armed fault is part of it; every transition re-executes the real code from an empty store. " +
-	"(B) every interleaving up to the preemption bound reported per scenario of 3 concurrent Take/QueryRow/QueryRowIndex readers (primary-key shapes small, >= 1e6, > 2^53, string); plus scenarios with an outage-begin/outage-end thread pair or a cache-Del thread placed at every point of 2-3 readers' flights; distinct by (scenario, queries per cache key, flights, per-reader source Q=own query S=shared flight H=cache hit E=error). " +
-	"(C) retry ladder: every outage length T-1,T,T+1 around each retry time T of the cleaner (1s,6s,66s,366s,3966s after a failed invalidation) x stale entry kind {row,placeholder,index} x Exec context {request,background} x random-source answer {0.5,0,1}, " +
+	"(B) every interleaving up to the preemption bound reported per scenario of 3 concurrent Take/QueryRow/QueryRowIndex readers (primary-key shapes small, >= 1e6, > 2^53, string); plus scenarios with an outage-begin/outage-end thread pair or a cache-Del thread placed at every point of 2-3 readers' flights; plus 3 readers spread over TWO connections built from one cache configuration and one shared barrier (2x sqlc.NewConn over a two-node / one-node conf, 2x sqlc.NewNodeConn, 2x cache.New with the caller's barrier, 2x monc.NewModel, 2x monc.NewNodeModel); distinct by (scenario, queries per cache key, flights, per-reader source Q=own query S=shared flight H=cache hit E=error). " +
+	"(C) retry ladder: every outage length T-1,T,T+1 around each retry time T of the cleaner (1s,6s,66s,366s,3966s after a failed invalidation) x stale entry kind {row,placeholder,index,index-placeholder} x Exec context {request,background} x redis client type {node, cluster: key-by-key DEL} x random-source answer {0.5,0,1}, " +
 	"the cleaner's wheel ticked by the harness; distinct by case + observed retry times, non-trivial when a stale entry existed and coherence was demanded after the outage"
 
 func main() {
@@ -38,6 +40,8 @@ func main() {
 	r.Assume("miniredis stands for Redis: TTLs move only with FastForward; an outage makes every data command answer with an error (go-redis does not retry it)")
 	r.Assume("the redis client is built with breaker.NopBreaker() (white-box constructor): its real breaker is process-global per address and real-time, so it would couple histories")
 	r.Assume("the cache cleaner's retry of a failed invalidation runs on a process-global real-time timing wheel; the check replaces it by the same wheel (1-s interval, 300 slots, same execute function) on a harness-owned ticker: one tick = one second. After an invalidation hit an outage coherence of its keys is demanded again from the first retry attempted against a healthy store (A), and at the latest one tick per ladder step after the first retry time 1s,5s,1m,5m,1h (cumulative) that follows the end of the outage (C)")
+	r.Assume("a configuration without a positive expiry (option absent, zero, negative) means the documented defaults of the cache: 7 days for rows, 1 minute for not-found markers; the TTL oracles work with these effective expiries")
+	r.Assume("monc: no MongoDB; the model is built by monc.NewModel / NewNodeModel over a never-connected client injected through mon.Inject, its exported embedded mon.Collection is replaced by a collection over the harness database (find / write results in the driver's own result types)")
 	r.Assume("(B) a redis call (client lookup + round trip) is one atomic step; interleavings are explored between redis calls, inside SingleFlight/cacheNode and inside the database query")
 
 	if cfg.Replay != "" {
@@ -90,11 +94,12 @@ func main() {
 	if cfg.Shard != "" || cfg.BFSWorker != "" || cfg.Replay != "" {
 		initEnv()
 	}
-	if cfg.BFSWorker == "histories-cluster" {
+	if cfg.BFSWorker == "histories-cluster" || cfg.BFSWorker == "histories-conf" || cfg.BFSWorker == "histories-monc" || cfg.Shard != "" {
 		env.initCluster()
 	}
 	if dbg := os.Getenv("C06_DEBUG"); dbg != "" { // debugging aid: trace the default schedule of one scenario twice
 		initEnv()
+		env.initCluster()
 		for _, sc := range scheduleScenarios(true) {
 			if sc.Name == dbg {
 				for i := 0; i < 2; i++ {
@@ -113,19 +118,19 @@ func main() {
 	if cfg.Shard == "" && cfg.Replay == "" && (only == "" || only == "A") {
 		// (A): soft time boxes of the history searches (quick: 75 + 25 s of the 150 s wall budget;
 		// thorough: 11 + 3 + 3 of the 25 minutes); (B) gets the rest of cfg.Deadline()
-		box := []time.Duration{75 * time.Second, 0, 100 * time.Second, 125 * time.Second}
-		d1, d2, dpk := 6, 6, 7
+		box := []time.Duration{75 * time.Second, 0, 100 * time.Second, 115 * time.Second, 130 * time.Second, 140 * time.Second}
+		d1, d2, dpk, dconf, dmonc := 6, 6, 7, 5, 5
 		if cfg.Thorough() {
-			box = []time.Duration{11 * time.Minute, 14 * time.Minute, 17 * time.Minute, 19 * time.Minute}
-			d1, d2, dpk = 8, 8, 9
+			box = []time.Duration{11 * time.Minute, 14 * time.Minute, 17 * time.Minute, 19 * time.Minute, 20 * time.Minute, 21 * time.Minute}
+			d1, d2, dpk, dconf, dmonc = 8, 8, 9, 6, 7
 		}
 		if cfg.BudgetS > 0 {
 			b := time.Duration(cfg.BudgetS) * time.Second
-			box = []time.Duration{b * 4 / 10, b * 5 / 10, b * 6 / 10, b * 65 / 100}
+			box = []time.Duration{b * 4 / 10, b * 5 / 10, b * 6 / 10, b * 65 / 100, b * 68 / 100, b * 7 / 10}
 		}
 		if v := os.Getenv("C06_DEPTH"); v != "" { // debugging aid
 			fmt.Sscan(v, &d1)
-			d2, dpk = d1, d1
+			d2, dpk, dconf, dmonc = d1, d1, d1, d1
 		}
 		// one failing invalidation per history, issued with a request context that is then cancelled
 		searchHistories(cfg, r, "histories", false, d1, 1, false, cfg.Start.Add(box[0]))
@@ -136,6 +141,10 @@ func main() {
 		searchHistories(cfg, r, "histories-cluster", true, d2, 1, false, cfg.Start.Add(box[2]))
 		// the sequential histories over the other primary-key shapes (first op = shape)
 		searchHistories(cfg, r, "histories-pk", false, dpk, 0, false, cfg.Start.Add(box[3]))
+		// the expiry-configuration family x the entry points of cache.Cache itself (first op = configuration)
+		searchHistories(cfg, r, "histories-conf", false, dconf, 0, false, cfg.Start.Add(box[4]))
+		// the Mongo cached model (cache part): every write entry point, node and cluster constructors, expiry configurations
+		searchHistories(cfg, r, "histories-monc", false, dmonc, 0, false, cfg.Start.Add(box[5]))
 	}
 	// (C): the retry ladder of failed invalidations, one worker process per (entry kind, random-source answer)
 	if cfg.Replay == "" && (only == "" || only == "C") && (cfg.Shard == "" || strings.HasPrefix(cfg.Shard, "ladder/")) {
